@@ -1614,6 +1614,7 @@ func IsFileModified(filepath string) (bool, error) {
 		"-c", "core.quotepath=false", // handle special chars in filenames
 		"status",
 		"--porcelain",
+		"-z", // entries are NUL-terminated and never quoted, whatever the file name contains
 		"--", // separator in case filename ambiguous
 		filepath,
 	}
@@ -1629,13 +1630,15 @@ func IsFileModified(filepath string) (bool, error) {
 		return false, lfserrors.Wrap(err, tr.Tr.Get("Failed to start `git status`"))
 	}
 	matched := false
-	for scanner := bufio.NewScanner(outp); scanner.Scan(); {
+	scanner := bufio.NewScanner(outp)
+	scanner.Split(tools.SplitOnNul)
+	for scanner.Scan() {
 		line := scanner.Text()
 		// Porcelain format is "<I><W> <filename>"
 		// Where <I> = index status, <W> = working copy status
 		if len(line) > 3 {
 			// Double-check even though should be only match
-			if strings.TrimSpace(line[3:]) == filepath {
+			if line[3:] == filepath {
 				matched = true
 				// keep consuming output to exit cleanly
 				// will typically fall straight through anyway due to 1 line output
